@@ -29,6 +29,15 @@ Definition pay_op (op : cop) (p : N) (o : obj) : bool :=
   | CLe => N.leb (opay o) p | CGe => N.leb p (opay o)
   end.
 Definition pay_in (l : list N) (o : obj) : bool := existsb (N.eqb (opay o)) l.
+(* ordering operators on string properties: Python str comparison (code points) *)
+Definition str_op (op : cop) (x v : ustring) : bool :=
+  match op with
+  | CEq => ustr_eqb x v | CNe => negb (ustr_eqb x v)
+  | CLt => ustr_ltb x v | CGt => ustr_ltb v x
+  | CLe => negb (ustr_ltb v x) | CGe => negb (ustr_ltb x v)
+  end.
+Definition type_op (op : cop) (v : ustring) (o : obj) : bool := str_op op (otype o) v.
+Definition oid_op (op : cop) (v : ustring) (o : obj) : bool := str_op op (oid o) v.
 Definition type_ne (v : ustring) (o : obj) : bool := negb (ustr_eqb (otype o) v).
 Definition type_in (l : list ustring) (o : obj) : bool := existsb (ustr_eqb (otype o)) l.
 Definition oid_ne (v : ustring) (o : obj) : bool := negb (ustr_eqb (oid o) v).
